@@ -9,6 +9,7 @@ EXPLANATION = ("R-SIB sibling agreement over the io event sources (enumerated fr
                "front-ends: reset before the early syscall, no second clear before yielding, done() after the yield. R-ORDER selector "
                "sets io_flag before taking the coroutine and schedules on its own worker; epoll registration flag sets; R-MO floors; "
                "thread path stores the result before unparking")
+EXPLANATION_2 = ('would-block classification in every done() and front-end (re-check/yield only after EAGAIN, EAGAIN never returned); one data syscall per completion for sources serving datagram sockets; early attempts through CoIo::inner recognised; add/mod/del_socket, io cancel set/clear, del_io_timer forwarding')
 NOT_DECIDED = "the kernel; payload integrity and stream order (the buffer/count pass-through is not tracked); readiness timing"
 CONFIGS_QUICK = ["default"]
 CONFIGS_THOROUGH = ["default", "nosteal", "bare"]
